@@ -511,8 +511,14 @@ func (fr *Frame) appendOp(call *ssa.CallCommon, args []Value, in ssa.Instruction
 			arr.E[j] = v
 		}
 		fr.heap[o] = arr
-		cp := ts.Var("appendcap", 64)
-		ex.Assumes = append(ex.Assumes, ts.Implies(ts.And(fr.pc, growNZ), ts.And(ts.Ule(newLen, cp), ts.Ule(cp, ts.BV(uint64(n), 64)))))
+		var cp *Term
+		if isHarnessFn(fr.fn) {
+			// growth policy inside harness/reference code is irrelevant to the claims: exact capacity
+			cp = newLen
+		} else {
+			cp = ts.Var("appendcap", 64)
+			ex.Assumes = append(ex.Assumes, ts.Implies(ts.And(fr.pc, growNZ), ts.And(ts.Ule(newLen, cp), ts.Ule(cp, ts.BV(uint64(n), 64)))))
+		}
 		out.Alts = append(out.Alts, SliceAlt{growNZ, o, ts.BV(0, 64), newLen, cp})
 	}
 	// lt == 0 and not in place (only possible when s is nil or ... cap<len impossible): result is s itself
@@ -581,6 +587,20 @@ func (fr *Frame) copyOp(call *ssa.CallCommon, args []Value, in ssa.Instruction) 
 		fr.sliceStore(d, ts.BV(uint64(k), 64), get(k), ts.Ult(ts.BV(uint64(k), 64), n))
 	}
 	return &VBV{n}
+}
+
+// isHarnessFn: harness functions (VX_*), reference functions (ref*) and their closures, and package vx.
+func isHarnessFn(fn *ssa.Function) bool {
+	for f := fn; f != nil; f = f.Parent() {
+		if isVxPkg(f.Pkg) {
+			return true
+		}
+		n := f.Name()
+		if strings.HasPrefix(n, "VX_") || strings.HasPrefix(n, "ref") {
+			return true
+		}
+	}
+	return false
 }
 
 func (ex *Exec) describe(v Value) string {
